@@ -1,5 +1,6 @@
 import NeatviVerif.Drive.Common
 import NeatviVerif.Drive.C16
+import NeatviVerif.Drive.Ren
 /-!
 Line-protocol driver.  Reads case lines (input + the implementation's observables, as printed by
 the C harnesses) on stdin; for every line recomputes the model's observables and evaluates the
@@ -15,6 +16,9 @@ def judge (stream : String) (kv : KV) : Option Verdict :=
   match stream with
   | "cp" => some (C16.judgeCp kv)
   | "str" => some (C16.judgeStr kv)
+  | "ren17" => some (RenD.judge 17 kv)
+  | "ren18" => some (RenD.judge 18 kv)
+  | "shape" => some (RenD.judgeShape kv)
   | _ => none
 
 partial def loop (h : IO.FS.Stream) (limit : Nat) (ln : Nat) (accs : List (String × Acc)) : IO (List (String × Acc)) := do
